@@ -121,6 +121,11 @@ def _quorum_ack_lit(cx, ctx):
         b = match(call("~ProgressTracker::has_quorum", ANY, V("s")), e)
         if b and contains(call("~ReadOnly::recv_ack", ANY, ANY, ctx), b["s"]):
             return True
+        # the test is a predicate handed in by the caller and applied to this request's acknowledgements
+        # (`fn ack_and_advance(.., confirmed: impl FnOnce(&HashSet<u64>) -> bool)`): every in-crate caller is decided
+        # where the helper is spliced in; here only "released behind the predicate on recv_ack(from, ctx)" is left
+        if e[0] == "call" and e[1].rsplit("::", 1)[-1] in ("call_once", "call", "call_mut") and len(e[2]) == 2 and e[2][0][0] == "param" and contains(call("~ReadOnly::recv_ack", ANY, ANY, ctx), e[2][1]):
+            return True
         b = match(call("~Option::is_some_and", call("~ReadOnly::recv_ack", ANY, ANY, ctx), V("c")), e)
         if b:
             r = closure_apply(cx.prog, b["c"], [("arg0",)])
